@@ -23,7 +23,8 @@ META = dict(
 PRE = '''void probe(sbx_t& sb, tn<int*>& tgood, tn<int**>& pp, tn<VS*>& ps, tn<int (**)(long)>& pf, tn<int* (*)[3]>& pa, int* raw, const int* craw,
            int (*rawfn)(long), int* (&rawarr)[3], std::array<int*, 3>& rawstd, tn2<int*>& other_t, to2<int*>& other_o, scb2<int (*)(long)>& other_cb,
            scb<int (*)(long)>& cb_ok, scb<long (*)(int)>& cb_othersig, VS& plainstruct, tn<VS>& tstruct, to<int*>& opq, tn2<VS>& other_struct, tn2<int>& other_int,
-           tn<char* [3]>& chararr3, tn<int (*(*)[2])(long)>& pfa, tn<long (*[2])(int)>& fnarr_other, tn<int (*[2])(long)>& fnarr_ok)
+           tn<char* [3]>& chararr3, tn<int (*(*)[2])(long)>& pfa, tn<long (*[2])(int)>& fnarr_other, tn<int (*[2])(long)>& fnarr_ok,
+           void* rawv, const void* crawv, char* rawc, VS* raws, int** rawpp, tn<void**>& ppv, tn<const void**>& ppcv, tn<char**>& ppc, tn<VS**>& pps, tn<int***>& ppp)
 {
   %s
 }
@@ -50,14 +51,26 @@ def grid():
             neg.append(('%s <- %s' % (sk, nk), sc % ne))
         pos.append(('%s <- tainted of the same sandbox' % sk, sc % 'tgood'))
         pos.append(('%s <- nullptr' % sk, sc % 'nullptr'))
+    # the same sinks for other pointee types (void, const void, char, struct, pointer): the rejection must not depend on the pointee
+    for pt, src, cell in [('void*', 'rawv', 'ppv'), ('const void*', 'crawv', 'ppcv'), ('const void*', 'rawv', 'ppcv'), ('char*', 'rawc', 'ppc'),
+                          ('VS*', 'raws', 'pps'), ('int**', 'rawpp', 'ppp'), ('void*', 'raw', 'ppv'), ('const void*', 'craw', 'ppcv')]:
+        for sk, sc in [('copy-init', 'tn<%s> t = %s; (void)t;'), ('direct-init', 'tn<%s> t(%s); (void)t;'), ('list-init', 'tn<%s> t{%s}; (void)t;'),
+                       ('assignment', 'tn<%s> t = nullptr; t = %s;')]:
+            neg.append(('tainted<%s> %s <- raw %s' % (pt, sk, src), sc % (pt, src)))
+        neg.append(('tainted_volatile<%s> cell <- raw %s' % (pt, src), '*%s = %s;' % (cell, src)))
+        pos.append(('tainted<%s> copy-init <- nullptr' % pt, 'tn<%s> t = nullptr; *%s = t;' % (pt, cell)))
     # arrays of raw pointers
     neg.append(('array-of-pointers cell <- C array of raw pointers', '*pa = rawarr;'))
     neg.append(('array-of-pointers cell <- std::array of raw pointers', '*pa = rawstd;'))
     neg.append(('tainted<T*[3]> <- C array of raw pointers', 'tn<int* [3]> t = rawarr; (void)t;'))
     pos.append(('array-of-pointers cell <- tainted array', 'tn<int* [3]> t; t[0] = nullptr; t[1] = tgood; t[2] = nullptr; *pa = t;'))
-    neg.append(('array-of-pointers cell <- tainted array of another pointee type', '*pa = chararr3;'))
+    # (an array of DATA pointers of another pointee type - '*pa = chararr3' - is rejected by the library as well, but C02 only speaks about
+    # function-pointer types, so it is not a shape of this grid)
     neg.append(('array-of-function-pointers cell <- tainted array of another signature', '*pfa = fnarr_other;'))
     pos.append(('array-of-function-pointers cell <- tainted array of the same signature', '*pfa = fnarr_ok;'))
+    # the address-of-a-sandbox-function entry point names FUNCTIONS: given an application object it would wrap that object's address
+    neg.append(('sandbox_function_address of an application variable', 'static int app_secret, guest_app_secret; auto t = sb.get_sandbox_function_address(app_secret); (void)t; (void)guest_app_secret;'))
+    pos.append(('sandbox_function_address of a sandbox function', 'auto t = sb.get_sandbox_function_address(g_take_ptr); (void)t;'))
     # function pointers
     neg.append(('tainted<Fn> <- raw function pointer', 'tn<int (*)(long)> t = rawfn; (void)t;'))
     neg.append(('tainted_volatile<Fn> <- raw function pointer', '*pf = rawfn;'))
